@@ -42,6 +42,35 @@ def observable_attrs(cls: Class) -> set:
     return out
 
 
+_PROG = {}
+
+
+def _same_answers(a: Obj, b: Obj) -> bool:
+    prog = _PROG.get("prog")
+    call = a.cls.lookup("__call__")
+    if prog is None or call is None or len(call.call_params) != 3 or a.cls.methods.get("__call__") is None and call.cls.qual.startswith("utils.constants"):
+        return False
+    names = [p.name for p in call.call_params]
+    try:
+        for tp in (0, 1):
+            for n1 in (0, 3):
+                for n2 in (0, 3):
+                    res = []
+                    for o in (a, b):
+                        it = YamlInterp(prog, call, dict(zip(names, (tp, n1, n2))), self_obj=o)
+                        it.root.metrics = getattr(call_cm, "metrics", [])
+                        it.root.no_inline = set()
+                        out = it.run()
+                        if out.decisions:
+                            return False
+                        res.append((out.kind, out.exc, out.value))
+                    if res[0][:2] != res[1][:2] or not deep_eq(res[0][2], res[1][2], 1):
+                        return False
+    except (Undecided, AnchorMissing):
+        return False
+    return True
+
+
 def deep_eq(a, b, depth=0) -> bool:
     if depth > 12:
         return True
@@ -53,7 +82,11 @@ def deep_eq(a, b, depth=0) -> bool:
         obs = observable_attrs(a.cls)
         ka = {k for k in a.attrs if not k.startswith("_tag") and k in obs}
         kb = {k for k in b.attrs if not k.startswith("_tag") and k in obs}
-        return ka == kb and all(deep_eq(a.attrs[k], b.attrs[k], depth + 1) for k in ka)
+        if ka == kb and all(deep_eq(a.attrs[k], b.attrs[k], depth + 1) for k in ka):
+            return True
+        # objects that are nothing but a function of a few small arguments (the zero-TP handling: tp and the two
+        # instance counts) are the same setting if they answer alike on every class of arguments
+        return _same_answers(a, b)
     if isinstance(a, dict) and isinstance(b, dict):
         if len(a) != len(b):
             return False
@@ -144,6 +177,11 @@ def param_sets(prog):
         {"default_result": None, "no_instances_result": R("NONE"), "empty_prediction_result": R("ONE"), "empty_reference_result": R("ZERO"), "normal": R("NAN")},
         # an explicit NONE next to a default that is not NONE ("not given" and "given as NONE" differ)
         {"default_result": R("ONE"), "no_instances_result": R("NONE"), "empty_prediction_result": None, "empty_reference_result": R("NAN"), "normal": R("ZERO")},
+        # only the fallback and ONE specific scenario given (each scenario in turn): the others come from the fallback
+        {"default_result": R("ONE"), "no_instances_result": None, "empty_prediction_result": None, "empty_reference_result": None, "normal": R("ZERO")},
+        {"default_result": R("INF"), "no_instances_result": R("ZERO"), "empty_prediction_result": None, "empty_reference_result": None, "normal": None},
+        {"default_result": R("NAN"), "no_instances_result": None, "empty_prediction_result": R("ONE"), "empty_reference_result": None, "normal": None},
+        {"default_result": R("ZERO"), "no_instances_result": None, "empty_prediction_result": None, "empty_reference_result": R("ONE"), "normal": None},
     ]
     # [7, 15] / [16, 8]: labels whose hashes collide in a small set - the iteration order of a set of
     # them depends on the insertion order, so anything that orders settings by iterating a set shows
@@ -208,6 +246,7 @@ def serialisable_classes(prog) -> list[Class]:
 
 def check_roundtrip(ctx: Ctx):
     prog = ctx.prog
+    _PROG["prog"] = prog
     sets, ms = param_sets(prog)
     n_cls = 0
     for c in sorted(serialisable_classes(prog), key=lambda c: c.qual):
